@@ -103,6 +103,8 @@ func suiteIsolation(c *Ctx) {
 	for r := 0; r < rounds; r++ {
 		isolationCase(c)
 	}
+	// documents that name no Redis keys (in-memory exports) imported under new keys, twice
+	jsonCrossBackend(c)
 }
 
 func isolationCase(c *Ctx) {
